@@ -489,3 +489,25 @@ fn c32_ptp_ctor() {
     let t: PTs<TAI> = PTs::from_seconds_nanos_since_unix_epoch(su, n);
     assert!(ph::ts_raw(t) >> 64 == su as u128, "ptp timestamp seconds part");
 }
+
+// ------------------------------------------------------------------ seconds round trip
+/// from_seconds(to_seconds(d)) differs from d by less than |d|*1e-9 + 1 unit.
+/// f64 division by the constant 2^32-1 is bit-blasted; `range` selects the magnitude class.
+fn roundtrip_case(a: i64) {
+    let d = h::dur_from_raw(a);
+    let back = h::dur_raw(NtpDuration::from_seconds(d.to_seconds()));
+    let diff = (back as i128 - a as i128).abs();
+    // |a| * 1e-9 + 1 without floats: diff * 1e9 <= |a| + 1e9
+    assert!(diff * 1_000_000_000 <= (a as i128).abs() + 1_000_000_000, "seconds round trip within 1 ppb + 1 unit");
+}
+#[kani::proof]
+fn c32_roundtrip_small() {
+    let a: i64 = kani::any();
+    kani::assume(a > -(1i64 << 33) && a < (1i64 << 33));
+    roundtrip_case(a);
+}
+#[kani::proof]
+fn c32_roundtrip_full() {
+    let a: i64 = kani::any();
+    roundtrip_case(a);
+}
